@@ -4,6 +4,7 @@ import (
 	"fmt"
 	"sort"
 	"strings"
+	"time"
 
 	"github.com/go-kid/ioc/app"
 	cd "github.com/go-kid/ioc/component_definition"
@@ -30,11 +31,19 @@ type N struct {
 	L0                     []Iface
 	LP                     []*N
 	V0                     string
-	M0                     Missing // by-type point that no component can satisfy
-	rt                     *RT
-	Idx                    int
-	lookups                []string // names looked up through the container inside Init
-	swallow                bool     // a failing look-up is ignored (best-effort warm-up); Init reports its completion
+	// typed configuration points (tagged only by the typed-optional program variants)
+	VD time.Duration
+	VL []string
+	VP *string
+	VM map[string]string
+	VS struct {
+		A string `yaml:"a"`
+	}
+	M0      Missing // by-type point that no component can satisfy
+	rt      *RT
+	Idx     int
+	lookups []string // names looked up through the container inside Init
+	swallow bool     // a failing look-up is ignored (best-effort warm-up); Init reports its completion
 }
 
 func (n *N) ID() string        { return n.Nm }
@@ -709,6 +718,18 @@ func RunGraph(p *GraphProg, ch *envx.Chooser) *GraphObs {
 				}
 				if x.Node == i && x.Kind == "cfg-opt" {
 					vt[nm]["V0"] = "${cfg.nokey},required=false"
+				}
+				if x.Node == i && (x.Kind == "cfgtypes-opt" || x.Kind == "cfgempty-opt" || x.Kind == "pfxtypes-opt") {
+					tv := "${cfg.nokey},required=false"
+					switch x.Kind {
+					case "cfgempty-opt":
+						tv = ",required=false"
+					case "pfxtypes-opt":
+						tv = "prefix|cfg.nokey,required=false"
+					}
+					for _, fld := range []string{"VD", "VL", "VP", "VM", "VS"} {
+						vt[nm][fld] = tv
+					}
 				}
 				if x.Node == i && x.Kind == "pfx-req" {
 					vt[nm]["V0"] = "prefix|cfg.nokey"
